@@ -104,6 +104,16 @@ class Check(PropertyCheck):
             it = iter(e)
             next(it)
             fourth = list(e)
+            # direct generate() calls while a pass is running are extra instances, they do not use up the pass
+            f2 = GeneralInstanceGenerator(**kw)
+            got = 0
+            for _inst in f2:
+                got += 1
+                if got <= 2:
+                    f2.generate()
+            if got != 4:
+                res.append(("iteration", f"a pass with two direct generate() calls inside the loop yielded {got} instances, "
+                            f"iteration_limit=4"))
             if len(third) != 4 or len(fourth) != 4:
                 res.append(("iteration", f"after an abandoned pass the next pass yields {len(third)} / {len(fourth)} "
                             f"instances, iteration_limit=4"))
